@@ -223,7 +223,7 @@ FULL_ENS = [
     ('unknown_key_by_handle', f'!{ID_HIT} && !(key is None) && !{KEY_HIT} && bi_text(key) is None ==> r is Err && {UNCHANGED_DS}'),
     ('key_kept_or_created', f'r is Ok && !{ID_HIT} ==> (if {KEY_HIT} {{ final(self).keys@ == {K0} && final(self).key_idmap.data@ == old(self).key_idmap.data@ }} else {{ '
                             f'bi_text(key) is Some && final(self).keys@.len() == {K0}.len() + 1 && final(self).keys@.take({K0}.len() as int) =~= {K0} && final(self).keys@.last() is Some && final(self).keys@.last().unwrap().id@ == bi_text(key).unwrap() }})'),
-    ('the_pair', f'r is Ok && !{ID_HIT} ==> live(final(self).data@, r->Ok_0.idx() as int) && veq(final(self).data@[r->Ok_0.idx() as int].unwrap().value, value) '
+    ('the_pair', f'r is Ok && !{ID_HIT} ==> live(final(self).data@, r->Ok_0.idx() as int) && (final(self).data@[r->Ok_0.idx() as int].unwrap().value == value || veq(final(self).data@[r->Ok_0.idx() as int].unwrap().value, value)) '
                  f'&& final(self).data@[r->Ok_0.idx() as int].unwrap().key.idx() == (if {KEY_HIT} {{ bi_denotes::<DataKey>(key, Some(old(self).key_idmap.data@), old(self).key_idmap.resolve_temp_ids).unwrap() as int }} else {{ {K0}.len() as int }})'),
     ('reuses', f'!{ID_HIT} && {KEY_HIT} && id is None && safety && has_pair({D0}, DataKeyHandle(bi_denotes::<DataKey>(key, Some(old(self).key_idmap.data@), old(self).key_idmap.resolve_temp_ids).unwrap() as u16), value) ==> r is Ok && {UNCHANGED_DS}'),
     ('appends_at_most_one', f'final(self).data@ == {D0} || (final(self).data@.len() == {D0}.len() + 1 && final(self).data@.take({D0}.len() as int) =~= {D0} && r is Ok && r->Ok_0.idx() == {D0}.len())'),
@@ -240,7 +240,7 @@ DEDUP_HINT_FULL = '''proof {
 
 
 import os
-ENABLE_FULL = bool(os.environ.get('VX_FULL_INSERT'))
+ENABLE_FULL = not os.environ.get('VX_NO_FULL_INSERT')
 
 
 def build():
@@ -314,27 +314,27 @@ def build():
     GET_D = ('R-request', r'self\.get\(handle\)', '<Self as StoreFor<AnnotationData>>::get__handle(self, handle)')
 
     KEY_GHOST = '''
-    type Rest = (Seq<Option<AnnotationData>>, Seq<Seq<AnnotationDataHandle>>, Map<Seq<char>, AnnotationDataHandle>);
+    type Rest = (Seq<Option<AnnotationData>>, Seq<Seq<AnnotationDataHandle>>, Map<Seq<char>, AnnotationDataHandle>, bool);
     open spec fn view_store(&self) -> Seq<Option<DataKey>> { self.keys@ }
     open spec fn view_idmap(&self) -> Option<Map<Seq<char>, DataKeyHandle>> { Some(self.key_idmap.data@) }
     open spec fn view_temp_ids(&self) -> bool { self.key_idmap.resolve_temp_ids }
     open spec fn view_config(&self) -> Config { self.config }
-    open spec fn view_rest(&self) -> (Seq<Option<AnnotationData>>, Seq<Seq<AnnotationDataHandle>>, Map<Seq<char>, AnnotationDataHandle>) { (self.data@, self.key_data_map@, self.data_idmap.data@) }
+    open spec fn view_rest(&self) -> (Seq<Option<AnnotationData>>, Seq<Seq<AnnotationDataHandle>>, Map<Seq<char>, AnnotationDataHandle>, bool) { (self.data@, self.key_data_map@, self.data_idmap.data@, self.data_idmap.resolve_temp_ids) }
     open spec fn cascade_free() -> bool { true }
-    open spec fn preinsert_ok(rest: (Seq<Option<AnnotationData>>, Seq<Seq<AnnotationDataHandle>>, Map<Seq<char>, AnnotationDataHandle>), item: DataKey) -> bool { true }
-    open spec fn inserted_ok(rest: (Seq<Option<AnnotationData>>, Seq<Seq<AnnotationDataHandle>>, Map<Seq<char>, AnnotationDataHandle>), item: DataKey) -> bool { true }
+    open spec fn preinsert_ok(rest: (Seq<Option<AnnotationData>>, Seq<Seq<AnnotationDataHandle>>, Map<Seq<char>, AnnotationDataHandle>, bool), item: DataKey) -> bool { true }
+    open spec fn inserted_ok(rest: (Seq<Option<AnnotationData>>, Seq<Seq<AnnotationDataHandle>>, Map<Seq<char>, AnnotationDataHandle>, bool), item: DataKey) -> bool { true }
     open spec fn preremove_ok(s: Self, handle_idx: usize) -> bool { true }
     /// inserting a key leaves the key -> data index and the data alone
-    open spec fn inserted_post(store: Seq<Option<DataKey>>, pre_rest: (Seq<Option<AnnotationData>>, Seq<Seq<AnnotationDataHandle>>, Map<Seq<char>, AnnotationDataHandle>), post_rest: (Seq<Option<AnnotationData>>, Seq<Seq<AnnotationDataHandle>>, Map<Seq<char>, AnnotationDataHandle>), handle: DataKeyHandle, ok: bool) -> bool {
+    open spec fn inserted_post(store: Seq<Option<DataKey>>, pre_rest: (Seq<Option<AnnotationData>>, Seq<Seq<AnnotationDataHandle>>, Map<Seq<char>, AnnotationDataHandle>, bool), post_rest: (Seq<Option<AnnotationData>>, Seq<Seq<AnnotationDataHandle>>, Map<Seq<char>, AnnotationDataHandle>, bool), handle: DataKeyHandle, ok: bool) -> bool {
         ok && post_rest == pre_rest
     }
     /// removing a key clears exactly its own row: no other row moves (the index is addressed by key handle)
-    open spec fn preremove_post(pre_store: Seq<Option<DataKey>>, pre_rest: (Seq<Option<AnnotationData>>, Seq<Seq<AnnotationDataHandle>>, Map<Seq<char>, AnnotationDataHandle>), post_store: Seq<Option<DataKey>>, post_rest: (Seq<Option<AnnotationData>>, Seq<Seq<AnnotationDataHandle>>, Map<Seq<char>, AnnotationDataHandle>), handle: DataKeyHandle, ok: bool) -> bool {
+    open spec fn preremove_post(pre_store: Seq<Option<DataKey>>, pre_rest: (Seq<Option<AnnotationData>>, Seq<Seq<AnnotationDataHandle>>, Map<Seq<char>, AnnotationDataHandle>, bool), post_store: Seq<Option<DataKey>>, post_rest: (Seq<Option<AnnotationData>>, Seq<Seq<AnnotationDataHandle>>, Map<Seq<char>, AnnotationDataHandle>, bool), handle: DataKeyHandle, ok: bool) -> bool {
         ok
         && (handle.idx() < post_rest.1.len() ==> post_rest.1[handle.idx() as int].len() == 0)
         && post_rest.1.len() == pre_rest.1.len()
         && (forall|k: int| 0 <= k < post_rest.1.len() && k != handle.idx() ==> #[trigger] post_rest.1[k] == pre_rest.1[k])
-        && post_rest.0 == pre_rest.0 && post_rest.2 == pre_rest.2
+        && post_rest.0 == pre_rest.0 && post_rest.2 == pre_rest.2 && post_rest.3 == pre_rest.3
     }
     #[verifier::external_body]
     fn preinsert(&self, item: &mut DataKey) -> (r: Result<(), StamError>) { Ok(()) }
@@ -350,26 +350,26 @@ def build():
     u.trusted.append('default StoreCallbacks::preinsert (body `Ok(())`) re-declared external_body in the dataset impls')
 
     DATA_GHOST = '''
-    type Rest = (Seq<Option<DataKey>>, Seq<Seq<AnnotationDataHandle>>, Map<Seq<char>, DataKeyHandle>);
+    type Rest = (Seq<Option<DataKey>>, Seq<Seq<AnnotationDataHandle>>, Map<Seq<char>, DataKeyHandle>, bool);
     open spec fn view_store(&self) -> Seq<Option<AnnotationData>> { self.data@ }
     open spec fn view_idmap(&self) -> Option<Map<Seq<char>, AnnotationDataHandle>> { Some(self.data_idmap.data@) }
     open spec fn view_temp_ids(&self) -> bool { self.data_idmap.resolve_temp_ids }
     open spec fn view_config(&self) -> Config { self.config }
-    open spec fn view_rest(&self) -> (Seq<Option<DataKey>>, Seq<Seq<AnnotationDataHandle>>, Map<Seq<char>, DataKeyHandle>) { (self.keys@, self.key_data_map@, self.key_idmap.data@) }
+    open spec fn view_rest(&self) -> (Seq<Option<DataKey>>, Seq<Seq<AnnotationDataHandle>>, Map<Seq<char>, DataKeyHandle>, bool) { (self.keys@, self.key_data_map@, self.key_idmap.data@, self.key_idmap.resolve_temp_ids) }
     open spec fn cascade_free() -> bool { true }
-    open spec fn preinsert_ok(rest: (Seq<Option<DataKey>>, Seq<Seq<AnnotationDataHandle>>, Map<Seq<char>, DataKeyHandle>), item: AnnotationData) -> bool { true }
-    open spec fn inserted_ok(rest: (Seq<Option<DataKey>>, Seq<Seq<AnnotationDataHandle>>, Map<Seq<char>, DataKeyHandle>), item: AnnotationData) -> bool { true }
+    open spec fn preinsert_ok(rest: (Seq<Option<DataKey>>, Seq<Seq<AnnotationDataHandle>>, Map<Seq<char>, DataKeyHandle>, bool), item: AnnotationData) -> bool { true }
+    open spec fn inserted_ok(rest: (Seq<Option<DataKey>>, Seq<Seq<AnnotationDataHandle>>, Map<Seq<char>, DataKeyHandle>, bool), item: AnnotationData) -> bool { true }
     open spec fn preremove_ok(s: Self, handle_idx: usize) -> bool { live(s.data@, handle_idx as int) }
     /// after a data item has been pushed, `inserted` lists it under its key: the index is complete again
-    open spec fn inserted_post(store: Seq<Option<AnnotationData>>, pre_rest: (Seq<Option<DataKey>>, Seq<Seq<AnnotationDataHandle>>, Map<Seq<char>, DataKeyHandle>), post_rest: (Seq<Option<DataKey>>, Seq<Seq<AnnotationDataHandle>>, Map<Seq<char>, DataKeyHandle>), handle: AnnotationDataHandle, ok: bool) -> bool {
+    open spec fn inserted_post(store: Seq<Option<AnnotationData>>, pre_rest: (Seq<Option<DataKey>>, Seq<Seq<AnnotationDataHandle>>, Map<Seq<char>, DataKeyHandle>, bool), post_rest: (Seq<Option<DataKey>>, Seq<Seq<AnnotationDataHandle>>, Map<Seq<char>, DataKeyHandle>, bool), handle: AnnotationDataHandle, ok: bool) -> bool {
         ok
         && (kd_wf_except(store, pre_rest.1, Some(handle.idx() as int)) && store[handle.idx() as int].unwrap().spec_handle() == Some(handle) ==> kd_wf(store, post_rest.1))
-        && post_rest.0 == pre_rest.0 && post_rest.2 == pre_rest.2
+        && post_rest.0 == pre_rest.0 && post_rest.2 == pre_rest.2 && post_rest.3 == pre_rest.3
     }
     /// before a data item is tombstoned, `preremove` drops exactly that item from the index
-    open spec fn preremove_post(pre_store: Seq<Option<AnnotationData>>, pre_rest: (Seq<Option<DataKey>>, Seq<Seq<AnnotationDataHandle>>, Map<Seq<char>, DataKeyHandle>), post_store: Seq<Option<AnnotationData>>, post_rest: (Seq<Option<DataKey>>, Seq<Seq<AnnotationDataHandle>>, Map<Seq<char>, DataKeyHandle>), handle: AnnotationDataHandle, ok: bool) -> bool {
+    open spec fn preremove_post(pre_store: Seq<Option<AnnotationData>>, pre_rest: (Seq<Option<DataKey>>, Seq<Seq<AnnotationDataHandle>>, Map<Seq<char>, DataKeyHandle>, bool), post_store: Seq<Option<AnnotationData>>, post_rest: (Seq<Option<DataKey>>, Seq<Seq<AnnotationDataHandle>>, Map<Seq<char>, DataKeyHandle>, bool), handle: AnnotationDataHandle, ok: bool) -> bool {
         (ok && kd_wf(pre_store, pre_rest.1) ==> kd_wf_except(post_store, post_rest.1, Some(handle.idx() as int)))
-        && post_rest.0 == pre_rest.0 && post_rest.2 == pre_rest.2
+        && post_rest.0 == pre_rest.0 && post_rest.2 == pre_rest.2 && post_rest.3 == pre_rest.3
     }
     #[verifier::external_body]
     fn preinsert(&self, item: &mut AnnotationData) -> (r: Result<(), StamError>) { Ok(()) }
